@@ -8,18 +8,34 @@ Notation length := List.length.
 
 Definition resolves (E : env) (u : value) : Prop :=
   match type_of u with
-  | Some c => env_lookup E (hd [] (snd c)) = Some (fst c)
+  | Some c => env_lookup E (bound_name (import_pair c)) = Some (fst c, is_from (import_pair c))
   | None => True
   end.
 Definition builtins_free (E : env) : Prop := forall n, is_builtin n = true -> env_lookup E n = None.
 
 Definition ok1 (W : world) (E : env) (u : value) : Prop :=
-  wf_local W u = true /\ g_std_local u = true /\ resolves E u.
+  wf_local W u = true /\ resolves E u.
+
+(* a type outside the datetime module is reached through `from m import <top-level name>` *)
+Lemma resolves_from E u c :
+  type_of u = Some c -> str_eqb (fst c) m_stdlib_datetime = false -> resolves E u ->
+  env_lookup E (hd [] (snd c)) = Some (fst c, true).
+Proof. intros Ht Hm. unfold resolves, import_pair. rewrite Ht, Hm. trivial. Qed.
+(* a type of the datetime module through `import datetime` *)
+Lemma resolves_mod E u c :
+  type_of u = Some c -> str_eqb (fst c) m_stdlib_datetime = true -> resolves E u ->
+  env_lookup E (fst c) = Some (fst c, false).
+Proof. intros Ht Hm. unfold resolves, import_pair. rewrite Ht, Hm. trivial. Qed.
 
 (* ---------------------------------------------------------------- calls *)
 Lemma apply_call_lib W E n m k args kws :
-  env_lookup E n = Some m -> lib_kind (m, [n]) = Some k ->
+  env_lookup E n = Some (m, true) -> lib_kind (m, [n]) = Some k ->
   apply_call W E [n] args kws = lib_call k args kws.
+Proof. intros H1 H2. unfold apply_call. rewrite H1. unfold class_call. rewrite H2. reflexivity. Qed.
+
+Lemma apply_call_lib_mod W E n rest m k args kws :
+  env_lookup E n = Some (m, false) -> lib_kind (m, rest) = Some k ->
+  apply_call W E (n :: rest) args kws = lib_call k args kws.
 Proof. intros H1 H2. unfold apply_call. rewrite H1. unfold class_call. rewrite H2. reflexivity. Qed.
 
 Lemma apply_call_builtin W E n args kws :
@@ -27,7 +43,7 @@ Lemma apply_call_builtin W E n args kws :
 Proof. intros H1. unfold apply_call. rewrite H1. reflexivity. Qed.
 
 Lemma apply_call_data W E n rest m fds kws :
-  env_lookup E n = Some m -> lib_kind (m, n :: rest) = None -> find_data W (m, n :: rest) = Some fds ->
+  env_lookup E n = Some (m, true) -> lib_kind (m, n :: rest) = None -> find_data W (m, n :: rest) = Some fds ->
   apply_call W E (n :: rest) [] kws =
   if kw_known fds kws && names_nodup (map fst kws)
   then option_map (VObj (m, n :: rest)) (construct fds kws) else None.
@@ -46,8 +62,11 @@ Proof. induction l as [|y l IH]; cbn; [reflexivity|]. cbn in IH. rewrite IH. ref
 Lemma eval_scalar W E v :
   builtins_free E -> is_container v = false -> ok1 W E v -> eval W E (repr W v) = Some (norm W v).
 Proof.
-  intros HB Hc (Hwf & Hstd & Hres).
-  destruct v; try discriminate Hc; try discriminate Hstd; try reflexivity.
+  intros HB Hc (Hwf & Hres0).
+  destruct v; try discriminate Hc; try reflexivity;
+    try (match type of Hres0 with
+         | resolves _ ?u => pose proof (resolves_from E u _ eq_refl eq_refl Hres0) as Hres
+         end; cbn [hd snd fst] in Hres).
   - (* VFloat *)
     cbn [repr norm]. destruct (fl_isfinite bits) eqn:Ef; [reflexivity|].
     cbn [wf_local] in Hwf. rewrite Ef in Hwf. cbn [orb] in Hwf.
@@ -57,16 +76,16 @@ Proof.
     apply orb_true_iff in Hwf as [Hwf|Hwf]; [apply orb_true_iff in Hwf as [Hwf|Hwf]|];
       apply Z.eqb_eq in Hwf; subst bits; reflexivity.
   - (* VDecimal *)
-    cbn [repr norm]. unfold resolves in Hres. cbn [type_of hd snd fst] in Hres.
+    cbn [repr norm].
     rewrite eval_ECall. cbn [eval_list eval eval_kws].
     rewrite (apply_call_lib W E _ _ LDecimal _ _ Hres) by reflexivity.
     cbn [lib_call]. cbn [wf_local] in Hwf. destruct (dec_parse s); [reflexivity|discriminate].
   - (* VQName *)
-    cbn [repr norm]. unfold resolves in Hres. cbn [type_of hd snd fst] in Hres.
+    cbn [repr norm].
     rewrite eval_ECall. cbn [eval_list eval eval_kws].
     rewrite (apply_call_lib W E _ _ LQName _ _ Hres) by reflexivity. reflexivity.
   - (* VXml *)
-    cbn [repr norm]. unfold resolves in Hres. cbn [type_of hd snd fst] in Hres.
+    cbn [repr norm].
     rewrite eval_ECall, eval_list_map_EInt. cbn [eval_kws]. cbn [wf_local] in Hwf.
     destruct k.
     + rewrite (apply_call_lib W E _ _ LDate _ _ Hres) by reflexivity.
@@ -84,21 +103,45 @@ Proof.
       cbn [xml_repr_args last removelast].
       destruct (Z.eqb_spec z5 0) as [->|Hne]; reflexivity.
   - (* VDuration *)
-    cbn [repr norm]. unfold resolves in Hres. cbn [type_of hd snd fst] in Hres.
+    cbn [repr norm].
     cbn [wf_local] in Hwf. unfold raw_dq. rewrite Hwf.
     rewrite eval_ECall. cbn [eval_list eval eval_kws].
     rewrite (apply_call_lib W E _ _ LDuration _ _ Hres) by reflexivity. reflexivity.
   - (* VPeriod *)
-    cbn [repr norm]. unfold resolves in Hres. cbn [type_of hd snd fst] in Hres.
+    cbn [repr norm].
     cbn [wf_local] in Hwf. unfold raw_dq. rewrite Hwf.
     rewrite eval_ECall. cbn [eval_list eval eval_kws].
     rewrite (apply_call_lib W E _ _ LPeriod _ _ Hres) by reflexivity. reflexivity.
+  - (* VStd *)
+    pose proof (resolves_mod E (VStd k args) _ eq_refl eq_refl Hres0) as Hres. cbn [fst] in Hres.
+    cbn [repr norm]. rewrite eval_ECall, eval_list_map_EInt. cbn [eval_kws]. cbn [wf_local] in Hwf.
+    destruct k.
+    + rewrite (apply_call_lib_mod W E _ _ _ LSDate _ _ Hres) by reflexivity.
+      cbn [lib_call std_repr_args]. rewrite ints_of_map.
+      repeat (destruct args as [|? args]; cbn in Hwf; try discriminate Hwf). reflexivity.
+    + rewrite (apply_call_lib_mod W E _ _ _ LSTime _ _ Hres) by reflexivity.
+      cbn [lib_call]. rewrite ints_of_map.
+      repeat (destruct args as [|? args]; cbn in Hwf; try discriminate Hwf).
+      unfold std_repr_args, drop_last_zero. cbn [last removelast].
+      destruct (z2 =? 0)%Z eqn:E2; cbn [last removelast]; rewrite ?E2.
+      * apply Z.eqb_eq in E2. subst z2.
+        destruct (z1 =? 0)%Z eqn:E1; cbn [last removelast]; [apply Z.eqb_eq in E1; subst z1|]; reflexivity.
+      * reflexivity.
+    + rewrite (apply_call_lib_mod W E _ _ _ LSDateTime _ _ Hres) by reflexivity.
+      cbn [lib_call]. rewrite ints_of_map.
+      repeat (destruct args as [|? args]; cbn in Hwf; try discriminate Hwf).
+      unfold std_repr_args, drop_last_zero. cbn [last removelast].
+      destruct (z5 =? 0)%Z eqn:E2; cbn [last removelast]; rewrite ?E2.
+      * apply Z.eqb_eq in E2. subst z5.
+        destruct (z4 =? 0)%Z eqn:E1; cbn [last removelast]; [apply Z.eqb_eq in E1; subst z4|]; reflexivity.
+      * reflexivity.
   - (* VEnum *)
     destruct c as [md q]. cbn [wf_local snd fst] in Hwf.
-    apply andb_true_iff in Hwf as [Hwf _]. apply andb_true_iff in Hwf as [Hwf Hq].
-    apply andb_true_iff in Hwf as [Hwf _].
+    apply andb_true_iff in Hwf as [Hwf _]. apply andb_true_iff in Hwf as [Hwf Hdt].
+    apply andb_true_iff in Hwf as [Hwf Hq]. apply andb_true_iff in Hwf as [Hwf _].
     destruct q as [|x q]; [discriminate Hq|].
-    unfold resolves in Hres. cbn [type_of hd snd fst] in Hres.
+    apply negb_true_iff in Hdt.
+    pose proof (resolves_from E (VEnum (md, x :: q) m) _ eq_refl Hdt Hres0) as Hres. cbn [hd snd fst] in Hres.
     cbn [repr norm snd eval]. rewrite unsnoc_app. cbn [resolve]. rewrite Hres, Hwf. reflexivity.
 Qed.
 
@@ -388,14 +431,17 @@ Proof.
       * apply IHk. intros u Hu. apply Hok. rewrite subs_VDict. right. eapply subs_pairs_in; eauto.
       * apply IHx. intros u Hu. apply Hok. rewrite subs_VDict. right. eapply subs_pairs_in; eauto.
   - (* dataclass instance *)
-    destruct (Hok (VObj c fs) (subs_self _ _)) as (Hwf & _ & Hres).
+    destruct (Hok (VObj c fs) (subs_self _ _)) as (Hwf & Hres0).
     cbn [wf_local] in Hwf. rewrite repr_VObj, norm_VObj.
     destruct (find_data W c) as [fds|] eqn:Ef; [|discriminate Hwf].
-    apply andb_true_iff in Hwf as [Hwf Hns]. apply andb_true_iff in Hwf as [Hwf Hq].
+    apply andb_true_iff in Hwf as [Hwf Hns]. apply andb_true_iff in Hwf as [Hwf Hdt].
+    apply andb_true_iff in Hwf as [Hwf Hq].
     apply andb_true_iff in Hwf as [Hwf Hlib]. apply andb_true_iff in Hwf as [Hwf Hdefs].
     apply andb_true_iff in Hwf as [Hnames Hnd0].
+    apply negb_true_iff in Hdt.
+    pose proof (resolves_from E (VObj c fs) _ eq_refl Hdt Hres0) as Hres.
     destruct c as [md q]. cbn [snd fst] in *. destruct q as [|n rest]; [discriminate Hq|].
-    unfold resolves in Hres. cbn [type_of hd snd fst] in Hres.
+    cbn [hd] in Hres.
     rewrite eval_ECall. cbn [eval_list].
     rewrite (eval_kws_repr_fields W E fs fds).
     + assert (Hlib' : lib_kind (md, n :: rest) = None)
@@ -488,7 +534,7 @@ Proof.
     destruct (find_data W c) as [fds|] eqn:Ef; [|discriminate Hwf].
     apply andb_true_iff in Hwf as [Hwf _]. apply andb_true_iff in Hwf as [Hwf _].
     apply andb_true_iff in Hwf as [Hwf _]. apply andb_true_iff in Hwf as [Hwf _].
-    apply andb_true_iff in Hwf as [Hnames _].
+    apply andb_true_iff in Hwf as [Hwf _]. apply andb_true_iff in Hwf as [Hnames _].
     rewrite veq_VObj, cref_eqb_refl. cbn [andb].
     apply veq_norm_fields; try assumption.
     intros u Hu. apply Hok. rewrite subs_VObj, Ef. right. exact Hu.
